@@ -51,7 +51,7 @@ SPEC = {
                  "C06_skeleton_store_iterate", "C06_skeleton_store_iterate_keys", "C06_skeleton_store_delete_prefix_clear",
                  "C06_skeleton_type_typedvalue", "C06_skeleton_type_typedstore", "C06_skeleton_type_rwmutex",
                  "C06_code_refines_model", "C06_code_coherent_failure_atomic", "C06_code_lock_discipline",
-                 "C06_code_upgrade_window", "C06_code_serialised", "C06_compute_ownership", "C06_compute_argument_fresh", "C06_linearizable_judge", "C06_linearizable", "C06_no_deadlock", "C06_dirty_store_failure", "C06_dirty_store_witness", "C06_store_code_refines_model", "C06_store_bulk_partial"],
+                 "C06_code_upgrade_window", "C06_code_serialised", "C06_compute_ownership", "C06_compute_argument_fresh", "C06_linearizable_judge", "C06_linearizable", "C06_no_deadlock", "C06_dirty_store_failure", "C06_dirty_store_witness", "C06_store_code_refines_model", "C06_store_bulk_partial", "C06_code_whole_files"],
     "trusted_base": ["TypedValue (sequential): translator harness/c06/xlate (go/ast -> statement language, ~500 lines) and the language's semantics "
                      "Hive/Model/TypedCode.lean; the hand-written model Hive/Model/TypedValue.lean is PROVED equal to the translated method bodies "
                      "(C06_code_refines_model); translator + semantics are cross-checked on every run by executing the translated term against the real code",
